@@ -19,13 +19,13 @@ import (
 var outDir = verifDir
 
 type Obligation struct {
-	Name     string
-	Verdicts []Verdict
-	OK       bool
-	Secs     float64
-	Props    []string
-	Func     string
-	Clause   string
+	Name           string
+	Verdicts       []Verdict
+	OK             bool
+	Secs           float64
+	Props          []string
+	Func           string
+	Clause         string
 	CoverUndecided bool
 }
 
@@ -599,19 +599,19 @@ func writeEvidence(e *Engine, pr *PropRun, prop, tier string, seed, obligations,
 		assumptions = append(assumptions, "ENGINE-LIMIT: "+er)
 	}
 	cov := map[string]interface{}{
-		"obligations":              obligations,
-		"discharged":               discharged,
-		"checker_cmd":              fmt.Sprintf("/verif/bin/gobv check -p %s -tier %s", prop, tier),
-		"trusted_base":             trusted,
-		"functions_under_contract": pr.Funcs,
-		"queries":                  pr.Queries,
-		"by_backend":               pr.ByBackend,
-		"solver_time_s":            pr.SolverSec,
-		"smt_bytes":                pr.Bytes,
-		"covers_checked":           covers,
+		"obligations":                        obligations,
+		"discharged":                         discharged,
+		"checker_cmd":                        fmt.Sprintf("/verif/bin/gobv check -p %s -tier %s", prop, tier),
+		"trusted_base":                       trusted,
+		"functions_under_contract":           pr.Funcs,
+		"queries":                            pr.Queries,
+		"by_backend":                         pr.ByBackend,
+		"solver_time_s":                      pr.SolverSec,
+		"smt_bytes":                          pr.Bytes,
+		"covers_checked":                     covers,
 		"obligations_generated_not_admitted": notAdmitted,
-		"samples":                  samples,
-		"bounded":                  []string{},
+		"samples":                            samples,
+		"bounded":                            []string{},
 	}
 	ev := map[string]interface{}{
 		"property_id": prop,
